@@ -1,6 +1,7 @@
 package props
 
 import (
+	"runtime"
 	"encoding/json"
 	"flag"
 	"fmt"
@@ -149,6 +150,7 @@ func TestProp(t *testing.T) {
 
 	var failClass string
 	var lastFail *ReplayFile
+	clean := false // once a failure is being confirmed / minimised every execution starts from a clean process state
 	stop := false
 	// rapid's own shrink deadline is only checked between coarse steps; bound
 	// the minimisation ourselves: past this deadline every further candidate
@@ -174,6 +176,9 @@ func TestProp(t *testing.T) {
 		if *fDump != "" && strconv.FormatUint(hashBytes(cj), 16) == *fDump {
 			rf, _ := json.Marshal(&ReplayFile{Property: *fProp, Engine: engName, Case: cj})
 			os.WriteFile("dumpcase.json", rf, 0o644)
+		}
+		if clean {
+			cleanProcessState()
 		}
 		res := eng.Exec(t, c)
 		if *fDump != "" && strconv.FormatUint(hashBytes(cj), 16) == *fDump {
@@ -218,6 +223,23 @@ func TestProp(t *testing.T) {
 			if failClass != "" && v.Key() != failClass {
 				continue // shrinking must keep the class
 			}
+			if failClass == "" && !clean {
+				// the process has executed many cases: does this one also fail from
+				// the state a fresh process starts in (a replay must)?
+				clean = true
+				cleanProcessState()
+				again := false
+				for _, v2 := range eng.Exec(t, c).Violations {
+					if v2.Key() == v.Key() {
+						again = true
+					}
+				}
+				if !again {
+					clean = false
+					a.out.Unconfirmed++
+					return
+				}
+			}
 			vv := v
 			lastFail = &ReplayFile{Property: *fProp, Engine: engName, Case: cj, Expect: &vv, Trace: res.Trace}
 			if failClass == "" {
@@ -257,6 +279,14 @@ func TestProp(t *testing.T) {
 			os.Exit(2)
 		}
 	}
+}
+
+// cleanProcessState empties what earlier cases may have left in process-global
+// state that the code under test can reach: two collections empty every
+// sync.Pool (primary and victim cache).
+func cleanProcessState() {
+	runtime.GC()
+	runtime.GC()
 }
 
 var _ = simrt.Quiescent
